@@ -196,6 +196,17 @@ func c04Scenarios(tier string) []*Scenario {
 		add([]GNode{n, d("b")})
 		add([]GNode{n, ok("b"), d("c")})
 	}
+	// a skipped process carries exit_on_end / exit_on_failure but not exit_on_skipped: being skipped is neither
+	// an end nor a failure of a command, the project runs on and reports success
+	for _, flag := range []string{"exit_on_end", "exit_on_failure", "both"} {
+		sk := withDeps(ok("b"), map[string]string{"a": cSucc})
+		sk.ExitOnEnd = flag != "exit_on_failure"
+		if flag != "exit_on_end" {
+			sk.Restart = "exit_on_failure"
+		}
+		add([]GNode{fail("a", 4), sk, ok("c")})
+		add([]GNode{fail("a", 4), sk, withDeps(ok("c"), map[string]string{"b": cSucc}), d("e")})
+	}
 	// restart policy x exit_on_end x exit code on one process: the two rules are independent of each other
 	for _, pol := range []string{"", "no", "exit_on_failure", "on_failure"} {
 		for _, eoe := range []bool{false, true} {
